@@ -254,6 +254,12 @@ def run(repo, res, tier):
     errors = []
     for r in results:
         res.evaluations += r["nexpr"]
+        if r.get("undecided"):
+            u = f"DIM-UNDECIDED {r['entry']}/{r['field']}: a construct outside the typed fragment ({r['undecided'][:90]}); nothing claimed for this entry"
+            if u not in res.undecided:
+                res.undecided.append(u)
+            if not isinstance(r.get("dim"), tuple):
+                continue
         if r["error"]:
             errors.append(f"{r['entry']}/{r['field']}: {r['error']}")
             continue
